@@ -106,7 +106,7 @@ Theorem emit_script_transparent name glob opt body :
   | _, _ => False
   end.
 Proof.
-  unfold emit_script. destruct (work _ _) as [w| | | |]; auto.
+  unfold emit_script. destruct (emit_graph body) as [w| | | |]; auto.
   apply render_chunks_transparent.
 Qed.
 End T.
